@@ -4,6 +4,7 @@ from ..spec import specmsg as sm, specwire as sw
 from .c01 import bounds
 from .c09 import gen_unknown
 
+WARMUP = True  # a concrete first use of the harness before each path (vf/explore.py: WarmEnv)
 PROPERTY = "C02"
 
 KNOBS = ["canonical", "reverse-order", "rotate-order", "unpacked", "split-packed", "pad1", "pad2", "pad-max", "duplicate", "inject-unknown"]
